@@ -55,7 +55,7 @@ def forest_names(root):
         rel = os.path.relpath(dirpath, root)
         pkg = [] if rel == "." else rel.split(os.sep)
         for f in files:
-            if f.endswith(".py") and f not in ("spychk.py", "test_gen.py"):
+            if f.endswith(".py") and f not in ("spychk.py", "test_gen.py") and not f.startswith("jtv_"):
                 names.append(".".join(pkg + ([] if f == "__init__.py" else [f[:-3]])))
     return sorted(n for n in names if n)
 
@@ -94,6 +94,16 @@ def mode_api(spec):
                 api(handles[o["h"]].uninstall)
         elif o["op"] == "import":
             importlib.import_module(o["module"])
+        elif o["op"] == "second_copy":
+            # the process ends up with TWO copies of the library (a test runner that purges sys.modules, a vendored
+            # copy, importlib.reload of the package): the first one has already served a hooked import; from here on
+            # the program uses the second one
+            h0 = jaxtyping.install_import_hook("jtv_firstcopy_mod", None)
+            importlib.import_module("jtv_firstcopy_mod")
+            h0.uninstall()
+            for name in [n for n in sys.modules if n == "jaxtyping" or n.startswith("jaxtyping.")]:
+                del sys.modules[name]
+            jaxtyping = importlib.import_module("jaxtyping")
         elif o["op"] == "foreign_patch_begin":
             # another tool (typeguard 2.x's import hook, beartype.claw, a coverage tool) replaces cache_from_source for
             # a while, remembering what was there ...
